@@ -177,6 +177,23 @@ func c09OutEval(e *Env, c c09OutCase) {
 		args = append(args, "-o", filepath.Join(dir, "no", "such", "dir", "out"))
 	case "o-directory":
 		args = append(args, "-o", dir)
+	case "in-missing":
+		args = append(args, filepath.Join(dir, "no-such-file"))
+	case "in-directory":
+		args = append(args, dir)
+	case "in-unreadable":
+		args = append(args, writeTemp(dir, "secret.in", c.Stdin))
+		os.Chmod(filepath.Join(dir, "secret.in"), 0)
+	case "in-two-files":
+		args = append(args, writeTemp(dir, "a.in", c.Stdin), writeTemp(dir, "b.in", c.Stdin))
+	case "chord-missing":
+		args = append(args, "--chord", filepath.Join(dir, "no-such-file"))
+	case "chord-directory":
+		args = append(args, "--chord", dir)
+	case "attr-missing":
+		args = append(args, "--attr", filepath.Join(dir, "no-such-file"))
+	case "attr-directory":
+		args = append(args, "--attr", dir)
 	case "o-read-only":
 		ro := writeTemp(dir, "ro.out", "old")
 		os.Chmod(ro, 0o444)
@@ -193,8 +210,14 @@ func c09OutEval(e *Env, c c09OutCase) {
 		fail("C09/hang/"+key, "does not terminate")
 	case r.Crashed():
 		fail("C09/crash/"+key+"/"+c09CrashKind(r.Stderr), "crashes: "+firstLineWith(r.Stderr, "panic", "fatal error", "signal"))
-	case r.Exit == 0 && c.Dest == "o-read-only" && os.Geteuid() == 0:
-		e.R.Outcome("ok: root writes read-only files")
+	case r.Exit == 0 && (c.Dest == "o-read-only" || c.Dest == "in-unreadable") && os.Geteuid() == 0:
+		e.R.Outcome("ok: root reads and writes whatever the mode")
+	case r.Exit == 0 && strings.HasPrefix(c.Dest, "in-"):
+		fail("C09/failure-not-signalled/"+key, "the input cannot be read, yet the exit status is 0")
+	case r.Exit == 0 && (strings.HasPrefix(c.Dest, "chord-") || strings.HasPrefix(c.Dest, "attr-")):
+		fail("C09/failure-not-signalled/"+key, "the dictionary file cannot be read, yet the exit status is 0")
+	case len(r.Stdout) != 0 && o.Redirect == "":
+		fail("C09/stdout-on-failure/"+key, fmt.Sprintf("exit status %d but a result on stdout: %q", r.Exit, trunc(string(r.Stdout), 100)))
 	case r.Exit == 0:
 		fail("C09/failure-not-signalled/"+key, "the result cannot be delivered, yet the exit status is 0")
 	case len(r.Stderr) == 0:
@@ -221,9 +244,26 @@ func c09OutputPaths(e *Env, text, degText string) {
 	// (a closed stdout is no such destination: the Go runtime opens /dev/null on a closed descriptor 0-2)
 	dests := []string{"stdout-full", "o-full", "o-missing-dir", "o-directory", "o-read-only"}
 	var cases []c09OutCase
-	for _, c := range cmds {
+	for i, c := range cmds {
 		for _, d := range dests {
 			cases = append(cases, c09OutCase{Args: c.args, Stdin: c.stdin, Dest: d})
+		}
+		if i >= 15 {
+			continue
+		}
+		if c.stdin != "" {
+			for _, d := range []string{"in-missing", "in-directory", "in-unreadable", "in-two-files"} {
+				cases = append(cases, c09OutCase{Args: c.args, Stdin: c.stdin, Dest: d})
+			}
+		}
+		if c.args[0] == "write" || c.args[0] == "info" && (c.args[1] == "chord" || c.args[1] == "attr") {
+			c.args = append(c.args, "") // room for args[1] on plain `write`
+			for _, d := range []string{"chord-missing", "chord-directory", "attr-missing", "attr-directory"} {
+				if c.args[1] == "attr" && strings.HasPrefix(d, "chord-") {
+					continue // info attr * does not load chords
+				}
+				cases = append(cases, c09OutCase{Args: c.args[:len(c.args)-1], Stdin: c.stdin, Dest: d})
+			}
 		}
 	}
 	mc.ParFor(len(cases), func(i int) {
@@ -231,7 +271,7 @@ func c09OutputPaths(e *Env, text, degText string) {
 		e.R.Trace(1)
 		e.R.NonTrivialN(1)
 	})
-	e.R.AddPart(ev.Part{Name: "output-destinations-cli", Enumerated: fmt.Sprintf("real binary: %d valid command lines (every data-producing subcommand, three with results of 100 kB and more) x destination {stdout on a full device, -o on a full device, -o in a missing directory, -o naming a directory, -o naming a read-only file}: non-zero exit status with a diagnostic, never a silent success", len(cmds)), Executions: int64(len(cases)), Exhaustive: true})
+	e.R.AddPart(ev.Part{Name: "output-destinations-cli", Enumerated: fmt.Sprintf("real binary: %d valid command lines (every data-producing subcommand, three with results of 100 kB and more) x destination {stdout on a full device, -o on a full device, -o in a missing directory, -o naming a directory, -o naming a read-only file}; the input-reading ones x FILE {missing, a directory, unreadable, two files}; the dictionary-loading ones x --chord/--attr {missing, a directory}: non-zero exit status with a diagnostic, never a silent success", len(cmds)), Executions: int64(len(cases)), Exhaustive: true})
 }
 
 // goyaccDebugOnly reports whether every line is a goyacc debug line ("state-N saw TOKEN", "error recovery ...").
